@@ -25,6 +25,25 @@ pub fn session_case(rng: &mut Rng, out: &mut Out, cfg: &SessionCfg, prop: &str) 
             None => gen_engine_vocab(rng, cfg.extra_vocab),
         }
     };
+    // a fifth of the sessions run over a truncated vocabulary: most single-byte tokens are missing, so
+    // there are states where the grammar could continue but no token of the vocabulary can
+    let (ws, eos) = if rng.chance(1, 5) {
+        let keep: Vec<Vec<u8>> = ws[..ws.len() - 1]
+            .iter()
+            .filter(|w| if w.len() == 1 { w[0].is_ascii_graphic() && rng.chance(1, 3) } else { rng.chance(2, 3) })
+            .cloned()
+            .collect();
+        let mut k = keep;
+        if k.is_empty() {
+            k.push(b"a".to_vec());
+        }
+        k.push(b"\xFF<|eos|>".to_vec());
+        out.count("truncated_vocab_sessions", 1);
+        let e = (k.len() - 1) as u32;
+        (k, e)
+    } else {
+        (ws, eos)
+    };
     // a quarter of the sessions run over a tokenizer with a second end-of-sequence token
     let mut ws = ws;
     let extra_eos = if rng.chance(1, 4) {
@@ -66,9 +85,17 @@ pub fn session_case(rng: &mut Rng, out: &mut Out, cfg: &SessionCfg, prop: &str) 
                 results.push(r);
             }
             // mask
+            let mut pre = m.deep_clone();
             let (r, mask) = run_op(&mut m, &Op::Mask);
             ops.push(Op::Mask);
             results.push(r);
+            if mask.is_none() && !pre.is_stopped() && pre.is_accepting().unwrap_or(false) {
+                // the engine accepts the end-of-sequence token here, so there is a mask and it holds EOS
+                let mut c = pre.deep_clone();
+                if pre.validate_tokens(&[eos]).unwrap_or(0) == 1 && c.consume_token(eos).is_ok() {
+                    viol.push(format!("no mask ({}) in an accepting state in which the engine validates and commits the EOS token, after {:?}", stop_code(&m), history));
+                }
+            }
             let Some(mask) = mask else {
                 // mask error: must be a stop with no extension in an accepting state (C03/C18 look at it)
                 let (r, _) = run_op(&mut m, &Op::Stopped);
